@@ -3,10 +3,15 @@
 pub mod common;
 
 pub mod c01;
+pub mod c02;
 pub mod c03;
 pub mod c04;
 pub mod c05;
 pub mod c06;
 pub mod c07;
 pub mod c08;
+pub mod c09;
+pub mod c10;
+pub mod c11;
 pub mod c16;
+pub mod c17;
